@@ -312,3 +312,17 @@ Definition wf_ct (ct : ctable) : bool :=
   && Nat.eqb (arity ct (k_object ct)) 0
   && Nat.eqb (length (c_promote (cls_of ct (k_object ct)))) 0
   && forallb (wf_class ct) (cids_of ct).
+
+(* ---- decidable guards of the guarded laws (Properties.subtype_trans_guarded, meet_lower_guarded, meet_comm_equiv_guarded).
+   They are total boolean functions on the WHOLE type language and on every class table; the harness evaluates the
+   extracted functions on the real class table and on every triple / pair of the law search.
+   table_guard: the three table hypotheses.  type_guard x: x is in fragment F2 and outside the refuted family X2 (no
+   literal of bool / an enum that is not a member or whose class has fewer than two members; Any, fixed tuples, protocol
+   classes and Never inside unions are outside F2).  meet_guard additionally excludes family X3 (a class with an
+   invariant or contravariant parameter, the family of meet_lower_refuted). *)
+Definition table_guard (ct : ctable) : bool := wf_ct ct && wf_gen ct && wf_contr ct.
+Definition type_guard (ct : ctable) (x : ty) : bool := frag2 ct x && lits_ok ct x.
+Definition trans_guard (ct : ctable) (a b c : ty) : bool :=
+  table_guard ct && type_guard ct a && type_guard ct b && type_guard ct c.
+Definition meet_guard (ct : ctable) (s t : ty) : bool :=
+  table_guard ct && (type_guard ct s && covt ct s) && (type_guard ct t && covt ct t).
